@@ -4,8 +4,11 @@
   in single-rule mode and in GitHub mode; compare has no way to write (its result carries no tree).
 -/
 import Crs.Cli
+import CrsProps.C08
+import CrsProps.C12
+import CrsProps.C02
 namespace Crs.Props
-open Crs Crs.Cli
+open Crs Crs.Cli Crs.Update
 
 /-- **single rule, either output mode**: status 0 exactly when the stored operand is the generated regex -/
 theorem C12_compare_single_status (E : Asm.Engine) (cfg : Asm.Config) (o1 o2 : Parser.Ord) (t : Tree) (arg : Bytes) :
@@ -123,6 +126,144 @@ theorem C16_compareAll_fatal_is_loud (E : Asm.Engine) (cfg : Asm.Config) (o1 o2 
         · exact ih
         · simp [ih]
     · exact ih
+
+/-! ### update, then compare — on the tree -/
+
+theorem setFile_lookup_same (p c : Bytes) (t : Tree) (b : Bytes) (h : lookup p t = some b) :
+    lookup p (setFile p c t) = some c := by
+  induction t with
+  | nil => simp [lookup] at h
+  | cons x rest ih =>
+    obtain ⟨q, d⟩ := x
+    simp only [lookup] at h
+    simp only [setFile]
+    by_cases hq : (q == p) = true
+    · simp [hq, lookup]
+    · simp only [hq, Bool.false_eq_true, if_false] at h ⊢
+      simp only [lookup, hq, Bool.false_eq_true, if_false]
+      exact ih h
+
+/-- which file holds the rules of an id depends on the paths of the tree only -/
+theorem rulesFileOf_paths (t t' : Tree) (id : Bytes) (h : t'.map Prod.fst = t.map Prod.fst) :
+    rulesFileOf t' id = rulesFileOf t id := by
+  unfold rulesFileOf
+  simp only
+  generalize hP : (fun pb : Bytes × Bytes => hasPrefix b!"rules/" pb.1 && !(pb.1.drop 6).contains '/' &&
+      Update.contains (['-'] ++ id.take 3 ++ ['-']) (pb.1.drop 6)) = P
+  have key : ∀ (a b : Tree), b.map Prod.fst = a.map Prod.fst → (b.filter P).map Prod.fst = (a.filter P).map Prod.fst := by
+    intro a
+    induction a with
+    | nil => intro b hb; cases b with | nil => rfl | cons _ _ => simp at hb
+    | cons x a ih =>
+      intro b hb
+      cases b with
+      | nil => simp at hb
+      | cons y b =>
+        simp only [List.map_cons, List.cons.injEq] at hb
+        have hxy : P y = P x := by
+          rw [← hP]; simp only [hb.1]
+        simp only [List.filter_cons, hxy]
+        split
+        · simp [hb.1, ih b hb.2]
+        · exact ih b hb.2
+  have hk := key t t' h
+  cases hf : t.filter P with
+  | nil =>
+    have : t'.filter P = [] := by
+      cases hf' : t'.filter P with
+      | nil => rfl
+      | cons _ _ => rw [hf, hf'] at hk; simp at hk
+    simp [this]
+  | cons x xs =>
+    cases hf' : t'.filter P with
+    | nil => rw [hf, hf'] at hk; simp at hk
+    | cons y ys =>
+      rw [hf, hf'] at hk
+      simp only [List.map_cons, List.cons.injEq] at hk
+      cases xs with
+      | nil =>
+        cases ys with
+        | nil => simp [hk.1]
+        | cons _ _ => simp at hk
+      | cons _ _ =>
+        cases ys with
+        | nil => simp at hk
+        | cons _ _ => simp
+
+/-- what `generate` prints is one line (C02: printable ASCII) -/
+theorem generate_one_line (E : Asm.Engine) (fs : Parser.Fs) (cfg : Asm.Config) (o1 o2 : Parser.Ord) (input re : Bytes)
+    (h : Asm.generate E fs cfg o1 o2 input = .ok re) : '\n' ∉ re := by
+  have hp : AllPrintable re := by
+    unfold Asm.generate at h
+    split at h
+    · simp at h
+    · split at h
+      · simp at h
+      · split at h
+        · simp at h
+        · split at h
+          · simp at h
+          · rename_i lines _
+            unfold Asm.complete at h
+            split at h
+            · simp at h
+            · rename_i r hr
+              have hpr : AllPrintable r := by
+                split at hr
+                · simp at hr
+                · exact (C02_finish E _ _ r hr).1
+              split at h
+              · simp only [Except.ok.injEq] at h; subst h; exact hpr
+              · simp at h
+  intro hm
+  have := hp '\n' hm
+  revert this
+  decide
+
+/-- **C12 on the tree: update, then compare.** After `regex update` of a rule has succeeded, `regex compare` of the
+    same rule on the resulting tree finds it up to date — for every tree, include tree, configuration and engine
+    (hypothesis as in `C12_roundtrip`: the rewritten line is classified as before; that the generated regex is one line is C02's theorem). -/
+theorem C12_update_then_compare_tree (E : Asm.Engine) (cfg : Asm.Config) (o1 o2 : Parser.Ord) (g : Globals) (t t' : Tree)
+    (input id : Bytes) (k : Nat) (h : (updateRule E cfg o1 o2 g t input id k).2 = .ok t')
+    (hk : ∀ re rp rc, Asm.generate E (fsOf t) cfg o1 o2 input = .ok re → rulesFileOf t id = some rp → lookup rp t = some rc →
+      ∀ (i : Nat) (pre old post : Bytes), (splitNl rc)[i]? = some (pre ++ old ++ post) → KeepsClass (pre ++ old ++ post) (pre ++ re ++ post)) :
+    compareRule E cfg o1 o2 t' input id k = .ok true := by
+  obtain ⟨hfs, hpaths, _⟩ := C08_update_inputs_untouched E cfg o1 o2 g t t' input id k h
+  unfold updateRule at h
+  simp only at h
+  have hrun : ∀ g0 fs0, (runFile E cfg o1 o2 g0 fs0 input).2 = Asm.generate E fs0 cfg o1 o2 input := fun _ _ => rfl
+  rw [hrun] at h
+  cases hg : Asm.generate E (fsOf t) cfg o1 o2 input with
+  | error e => rw [hg] at h; simp at h
+  | ok re =>
+    rw [hg] at h
+    simp only at h
+    cases hrf : rulesFileOf t id with
+    | none => rw [hrf] at h; simp at h
+    | some rp =>
+      rw [hrf] at h
+      simp only at h
+      cases hl : lookup rp t with
+      | none => rw [hl] at h; simp at h
+      | some rc =>
+        rw [hl] at h
+        simp only at h
+        cases hu : updateRegex rc id k re with
+        | error e => rw [hu] at h; simp at h
+        | ok rc' =>
+          rw [hu] at h
+          simp only [Except.ok.injEq] at h
+          subst h
+          have hread := C12_roundtrip rc id k re rc' hu (generate_one_line E _ cfg o1 o2 input re hg) (hk re rp rc hg hrf hl)
+          unfold compareRule
+          rw [hrun, hfs, hg]
+          simp only
+          rw [rulesFileOf_paths t _ id hpaths, hrf]
+          simp only
+          rw [setFile_lookup_same rp rc' t rc hl]
+          simp only
+          rw [hread]
+          simp
 
 /-- non-vacuity: a tree with one up-to-date and one stale rule -/
 example : ruleOfFileName (baseName b!"regex-assembly/942100.ra") = some (some (b!"942100", 0)) ∧
